@@ -312,7 +312,8 @@ def respell(tree, ann, rng, kinds):
     decl_root = rng.random() < 0.5 if "decl_place" in kinds else True
     unused = None
     if "unused_decl" in kinds:
-        unused = (rng.choice(["p", "x", "zz", "unused"]), rng.choice(["urn:p", "urn:unused", "http://example.com/x"]))
+        free = [p for p in ["p", "x", "zz", "unused"] if p not in used]
+        unused = (rng.choice(free), rng.choice(["urn:p", "urn:unused", "http://example.com/x"]))
 
     quote_mode = "quote" in kinds
     text_mode = "mix" if ("cdata" in kinds and "charref" in kinds) else "cdata" if "cdata" in kinds else "charref" if "charref" in kinds else "plain"
@@ -443,7 +444,8 @@ def respell(tree, ann, rng, kinds):
                     else:
                         toks.append(prefix_for(r[0]) + ":" + r[1])
                 nv = " ".join(toks)
-                if "value_ws" in kinds and rng.random() < 0.5:
+                # (xsi:type is also caught verbatim by `##any` Attributes fields: never padded)
+                if "value_ws" in kinds and k != XSI_TYPE and rng.random() < 0.5:
                     nv = pad(nv)
             elif "value_ws" in kinds and k in a.get("padattrs", ()) and v.strip() and rng.random() < 0.6:
                 nv = pad(v)
